@@ -13,10 +13,20 @@ import numpy as np
 MISSING = object()
 
 
+def hkey(k):
+  """Dict keys travel as JSON: a tuple key arrives as a list."""
+  return tuple(k) if isinstance(k, list) else k
+
+
+def npath(path):
+  """Path from JSON -> list of (kind, key) tuples with hashable keys."""
+  return [(c[0], hkey(c[1])) for c in path]
+
+
 def decode(j):
   (tag, val), = j.items()
   if tag == 'd':
-    return {k: decode(v) for k, v in val}
+    return {hkey(k): decode(v) for k, v in val}
   if tag == 'l':
     return [decode(v) for v in val]
   if tag == 't':
